@@ -180,6 +180,17 @@ def go() -> uint256:
     self.x = 5
     return self.h(self.x, self.wr())
 """, [("g(uint256)", [2]), ("g(uint256)", [7]), ("go()", [])]),
+    # a dead phi output (dead-code removal disabled) was left in the stack map under its own name: "Retained dead stack
+    # item is above a live item" in clean_stack_from_cfg_in (notes/patches/c14s_dead_phi_output.diff, ac6097c)
+    ("""
+t0: bool
+t1: uint256
+@external
+def f0(a0: uint256, a2: bool) -> int256:
+    assert (((a2 or (a0 > self.t1)) and (not a2)) or True)
+    assert ((True and self.t0) and ((True or self.t0) or (a2 or False)))
+    return (convert(a0, int256) ^ 1)
+""", [("f0(uint256,bool)", [5, 0]), ("f0(uint256,bool)", [0, 1])]),
     # a callee whose spill slots (prologue popmany / deep swaps) started at fn_eom[callee] and overwrote the caller's frame:
     # memory-passed arguments (notes/patches/c14s_spill_region_aliases_caller_frame.diff)
     ("""
